@@ -465,7 +465,90 @@ def c03(ctx):
     ctx.assumptions += ["language tags are compared case-insensitively (term equality); labels, IRIs and tags are drawn from what the toolkit's own validators accept, as the property's quantifier says"]
 
 
+def c05(ctx):
+    binary = build()
+    mc = Bg(lambda: model_check(ctx, "MC_Iso", workers=2, timeout=900))
+    tr = os.path.join(ctx.traces, "sha.ndjson")
+    n = 220 if ctx.quick() else 4000
+    sv(binary, ["c14n", "--mode", "sha", "--n", n, "--seed", ctx.seed, "--out", tr], ctx=ctx)
+    trace = read_trace(tr)
+    mism = trace_check(ctx, "Trace_C14n", tr, timeout=6000)
+    bad = set()
+    for line, fields in mism:
+        e = trace[line - 1]
+        bad.add(line)
+        code, idx = fields[0], int(fields[1]) if len(fields) > 1 else 0
+        if e["ev"] == "Batch":
+            ms = e["members"]
+            if idx >= 10:
+                a, b = ms[idx // 10 - 1], ms[idx % 10 - 1]
+                detail = "%s: [%s] { %s }  vs  [%s] { %s }" % (code, a["container"], show_quads(a["d"]), b["container"], show_quads(b["d"]))
+                shape = "blank-graph-names" if any(q[3].get("k") == "bnode" for q in a["d"]) else "plain"
+            else:
+                a = ms[idx - 1]
+                detail = "%s: [%s] { %s } -> %r" % (code, a["container"], show_quads(a["d"]), uncps(a["sha256"]["text"])[:300])
+                shape = "blank-graph-names" if any(q[3].get("k") == "bnode" for q in a["d"]) else "plain"
+            key = "%s/%s" % (code, shape)
+        else:
+            key, detail = "panic", "panic: %s" % e.get("msg")
+        ctx.violations.append({"key": key, "detail": detail, "event": e, "trace": tr, "line": line})
+    ctx.traces_validated += len(trace) - len(bad)
+    nn = 0
+    for e in trace:
+        if e["ev"] == "Batch":
+            for m in e["members"]:
+                ctx.distinct.add(h(m["d"]))
+                nn += 3
+    ctx.evaluations = nn
+    ctx.samples += [{"container": m["container"], "d": show_quads(m["d"]), "canonical": uncps(m["sha256"]["text"])} for m in trace[3]["members"][:2]] if len(trace) > 3 and trace[3]["ev"] == "Batch" else []
+    mc.join()
+    ctx.rule = ("%d batches: a symmetric blank-node structure (cycles, cliques, disjoint triangles, stars, K(2,3), cycle+chord, bidirectional cycles, blank graph names, same statement in two graphs, self loops, random with "
+                "escape-relevant literals; <= 6 blank nodes), two relabelled+shuffled copies held in other containers (HashSet, BTreeSet, FastDataset, LightDataset) and three one-step neighbours; real SHA-256 and SHA-384. "
+                "TLC decides isomorphism by brute force, reads every canonical document with the independent N-Quads reader, and checks the identifier map. evaluations = normalisations+relabellings judged" % n)
+    ctx.assumptions += ["language tags compared literally, as the property says; the dataset judged is what the container holds"]
+
+
+def c06(ctx):
+    binary = build()
+    mc = Bg(lambda: model_check(ctx, "MC_Rdfc10", cfg="MC_Rdfc10" if ctx.quick() else "MC_Rdfc10_full", workers=2, timeout=3000))
+    tr = os.path.join(ctx.traces, "toy.ndjson")
+    n = 240 if ctx.quick() else 6000
+    sv(binary, ["c14n", "--mode", "toy", "--n", n, "--seed", ctx.seed, "--out", tr], ctx=ctx)
+    trace = read_trace(tr)
+    jobs = [Bg(lambda sd=sd: trace_check(ctx, "Trace_Rdfc10", tr, timeout=6000, tag="Trace_Rdfc10_s%d" % sd, cfg="Trace_Rdfc10_s%d" % sd)) for sd in (0, 1, 2)]
+    mism = []
+    for j in jobs:
+        mism += j.join()
+    ctx.evaluations = len(trace)
+    bad = set()
+    for line, fields in mism:
+        e = trace[line - 1]
+        bad.add(line)
+        code = fields[0]
+        if e["ev"] == "Toy":
+            twice = any(sum(1 for t in q if t.get("k") == "bnode" and t == b) > 1 for q in e["d"] for b in q if b.get("k") == "bnode")
+            key = "%s/%s" % (code, "same-bnode-twice-in-a-quad" if twice else "general")
+            detail = "%s (toy hash seed %d, depth factor %.1f, permutation limit %d): { %s } -> %s %r" % (code, e["seed"], e["depth_num"] / 2.0, e["perm_limit"], show_quads(e["d"]), e["res"]["k"], uncps(e["res"]["text"])[:200])
+        else:
+            key, detail = "panic", "panic: %s" % e.get("msg")
+        ctx.violations.append({"key": key, "detail": detail, "event": e, "trace": tr, "line": line})
+    ctx.traces_validated += len(trace) - len(bad)
+    for e in trace:
+        if e["ev"] == "Toy":
+            ctx.distinct.add(h([e["d"], e["seed"], e["depth_num"], e["perm_limit"]]))
+    ctx.samples += [{"d": show_quads(e["d"]), "seed": e["seed"], "canonical": uncps(e["res"]["text"])} for e in trace[5:7] if e["ev"] == "Toy"]
+    mc.join()
+    ctx.rule = ("Rdfc10.tla transcribes W3C RDFC-1.0 sections 4.4-4.8 step by step, parameterised by a computable toy hash (four 15-bit polynomial hashes) that is also plugged into the real normalize_with/relabel_with through the public HashFunction trait. "
+                "MC_Rdfc10: the transcription is label- and order-independent on 11 symmetric structures and step 5.2.1 is an optimisation only. %d datasets (same families as C05) x toy-hash seed in {0,1,2} (permutes the order of hash values) x "
+                "(depth factor, permutation limit) in {default, 0.5, 2.0} x {1, 2, 6}: TLC recomputes the canonical document and requires byte equality, the identifier map when step 5.3 has no tie, 'unsupported' for unsupported input, "
+                "and ToxicGraph only when a limit is exceeded in the specification's own run. distinct = (dataset, seed, limits)" % n)
+    ctx.assumptions += ["SHA-2 digests are not recomputed in TLA+: conformance with the real hash functions is argued by parametricity (the algorithm touches the hash only through initialize/update/finalize/Ord/hex); C05 exercises the real SHA-256/384",
+                        "the blank-node-to-quads map holds each quad once per blank node (set reading of step 2.1, as in the reference implementation)"]
+
+
 FAMILIES = {
+    "C05": c05,
+    "C06": c06,
     "C03": c03,
     "C07": c07,
     "C09": c09,
